@@ -399,13 +399,27 @@ void SimpleString::replace(char to, char with)
 
 void SimpleString::replace(const char* to, const char* with)
 {
-    size_t c = count(to);
-    if (c == 0) {
-        return;
-    }
     size_t len = size();
     size_t tolen = StrLen(to);
     size_t withlen = StrLen(with);
+    if (tolen == 0) {
+        return;
+    }
+
+    /* occurrences as the loop below replaces them: left to right, not overlapping */
+    size_t c = 0;
+    for (size_t pos = 0; pos + tolen <= len;) {
+        if (StrNCmp(&getBuffer()[pos], to, tolen) == 0) {
+            c++;
+            pos += tolen;
+        }
+        else {
+            pos++;
+        }
+    }
+    if (c == 0) {
+        return;
+    }
 
     size_t newsize = len + (withlen * c) - (tolen * c) + 1;
 
